@@ -62,6 +62,17 @@ class Spec:
             step = self.apply(st2, lab)
             assert not step.violations and not st2.dead, lab
         out.append(("two-streams-open", st2))
+        if self.client:
+            # the same with the PEER's MAX_CONCURRENT_STREAMS at 2: the next open is refused for concurrency - and must not
+            # have used up its id or left anything behind; once a stream has finished the same id opens
+            st3 = pickle.loads(pickle.dumps(st))
+            o = st3.h.rx([wire.settings([(wire.S_MAX_CONCURRENT_STREAMS, 2)])])
+            assert o.kind == "ok", o.brief()
+            for lab in ("l:req:1", "l:req:3"):
+                step = self.apply(st3, lab)
+                assert not step.violations and not st3.dead, lab
+            st3.peer_limit = 2
+            out.append(("two-streams-open-at-peer-limit-2", st3))
         if not self.client:
             # the same with the local MAX_CONCURRENT_STREAMS lowered to 2 and acknowledged: the connection is AT its limit,
             # which must not matter for frames that open nothing (late HEADERS on streams that are gone)
@@ -105,6 +116,12 @@ class Spec:
             for s_, x in sorted(m.streams.items()):
                 if x.local_init and x.state == SM.CLOSED and m.status(s_) == "closed":
                     acts.append("rx:Hinfo:%d" % s_)
+                    break
+            # response HEADERS still in flight on a promised stream that is over (reset by us or by the peer, refused, or
+            # ended), before and after the library forgot it
+            for s_, x in sorted(m.streams.items()):
+                if x.pushed and x.state == SM.CLOSED:
+                    acts.append("rx:Hlate:%d" % s_)
                     break
             for s in live:
                 if m.streams[s].local_init and not m.streams[s].pushed:
@@ -228,7 +245,9 @@ class Spec:
                 st.wire_hi = sid
                 out += "-ok"
             else:
-                if own and 0 < sid <= TOP and sid > st.wire_hi and status == "unused_high":
+                at_peer_limit = (getattr(st, "peer_limit", None) and parts[1] == "req" and o.exc_name == "TooManyStreamsError" and
+                                 m.count_open(True) >= st.peer_limit)
+                if own and 0 < sid <= TOP and sid > st.wire_hi and status == "unused_high" and not at_peer_limit:
                     bad("legal-id-refused", "%s with fresh id %d (highest used %d) refused: %s" % (parts[1], sid, st.wire_hi, o.brief()),
                         exc=o.exc_name)
                 if not o.is_h2:
@@ -245,15 +264,16 @@ class Spec:
                 bad("pushed-response-rejected", "%s -> %s" % (lab, o.brief()))
                 st.dead = True
                 return Step("resp-rejected", viols, prune=True)
-        elif parts[:2] == ["rx", "Hinfo"]:
+        elif parts[:2] in (["rx", "Hinfo"], ["rx", "Hlate"]):
             sid = int(parts[2])
             s0 = m.get(sid)
             exp = ("SE", wire.STREAM_CLOSED) if s0.closed_by in ("send_rst", "recv_rst") else ("CE", wire.STREAM_CLOSED)
-            o = h.rx([wire.headers(sid, sb([(b":status", b"103")]))])
+            o = h.rx([wire.headers(sid, sb([(b":status", b"103")] if parts[1] == "Hinfo" else H.RESP))])
             got = classify(o, sid)
             if got != exp and not (got == ("OK", None) and exp[0] == "SE" and not o.events):
-                bad("peer-open-wrong-outcome", "1xx HEADERS on our stream %d (closed, closed_by=%s): expected %s, got %s [%s]" % (
-                    sid, s0.closed_by, show(exp), show(got), o.brief()), frame="Hinfo", status="closed", closed_by=str(s0.closed_by),
+                bad("peer-open-wrong-outcome", "%s HEADERS on stream %d (%s, closed_by=%s): expected %s, got %s [%s]" % (
+                    "1xx" if parts[1] == "Hinfo" else "late response", sid, m.status(sid), s0.closed_by, show(exp), show(got), o.brief()),
+                    frame=parts[1], status=m.status(sid), closed_by=str(s0.closed_by),
                     expected=show(exp), got=show(got), zero=False)
             if o.kind == "raise":
                 st.dead = True
